@@ -27,7 +27,7 @@ import (
 // stats.Try/TryT (CPU time, never wall time: the machine is shared); the limits
 // are tightened because a legitimate case costs microseconds and kilobytes.
 func TestMain(m *testing.M) {
-	stats.SetLimits(30*time.Second, 1536<<20)
+	stats.SetLimits(90*time.Second, 1536<<20) // the top rungs of the size ladder cost seconds of CPU on a loaded machine
 	stats.Main(m, "C12")
 }
 
@@ -44,15 +44,30 @@ func distFunc(name string) orb.DistanceFunc {
 		return manhattan
 	case "planar-reentrant":
 		return reentrantDistance
+	case "planar-method":
+		// L2: a bound method value of a struct with uncomparable fields
+		m := &metricBox{weights: map[string]float64{"x": 1, "y": 1}, trail: []int{1, 2, 3}}
+		return m.dist
 	}
 	return planar.Distance
+}
+
+type metricBox struct {
+	weights map[string]float64
+	trail   []int
+	fn      func()
+}
+
+func (m *metricBox) dist(a, b orb.Point) float64 {
+	dx, dy := (a[0]-b[0])*m.weights["x"], (a[1]-b[1])*m.weights["y"]
+	return math.Sqrt(dx*dx + dy*dy)
 }
 
 func ownPlanar(a, b orb.Point) float64 { return ownDistance("planar", a, b) }
 
 // oracleDF is the same metric without the nested calls (used by the oracle).
 func oracleDF(name string) orb.DistanceFunc {
-	if name == "planar-reentrant" {
+	if name == "planar-reentrant" || name == "planar-method" {
 		return planar.Distance
 	}
 	return distFunc(name)
@@ -207,11 +222,12 @@ func checkIndependent(s Spec, in []orb.Point, ring bool, snap []orb.Point) error
 	}
 	what := s.String() + "." + kind
 	snap = clonePts(snap)
-	first := apply(s.make(), in, ring)
+	val := s.make() // one simplifier value for all calls here: it is read-only (L4)
+	first := apply(val, in, ring)
 	if !sameSeq(first, snap) {
 		return fmt.Errorf("%s: two calls on equal inputs differ: %v vs %v", what, short(snap), short(first))
 	}
-	apply(s.make(), []orb.Point{{3, 3}, {4, 9}, {5, 3}, {6, 9}, {7, 3}, {8, 8}, {9, 3}, {3, 3}}, ring)
+	apply(val, []orb.Point{{3, 3}, {4, 9}, {5, 3}, {6, 9}, {7, 3}, {8, 8}, {9, 3}, {3, 3}}, ring)
 	if !sameSeq(first, snap) {
 		return fmt.Errorf("%s: a result obtained earlier changed when the simplifier was used on another line (the result shares memory with state kept in the package): was %v, now %v", what, short(snap), short(first))
 	}
@@ -220,11 +236,11 @@ func checkIndependent(s Spec, in []orb.Point, ring bool, snap []orb.Point) error
 	}
 	first = append(first, orb.Point{-1, -1}, orb.Point{-2, -2})
 	_ = first
-	again := apply(s.make(), in, ring)
+	again := apply(val, in, ring)
 	if !sameSeq(again, snap) {
 		return fmt.Errorf("%s: after the first result was overwritten, the same call on a fresh copy of the input returns %v, want %v: in=%v", what, short(again), short(snap), short(in))
 	}
-	return nil
+	return checkFields(s, val)
 }
 
 // ---------------------------------------------------------------- line case
@@ -277,7 +293,7 @@ func magOK(v float64) bool { return v == 0 || (math.Abs(v) >= minMag && math.Abs
 // non-zero coordinates, hence coordinate differences, and thresholds lie in
 // [2^-200, 2^200]; thresholds may also be 0 or +Inf).
 func rescalable(c LineCase) bool {
-	if c.Scale == 0 || c.Scale < -60 || c.Scale > 60 || (c.DF != "planar" && c.DF != "manhattan" && c.DF != "planar-reentrant") {
+	if c.Scale == 0 || c.Scale < -60 || c.Scale > 60 || (c.DF != "planar" && c.DF != "manhattan" && c.DF != "planar-reentrant" && c.DF != "planar-method") {
 		return false
 	}
 	for _, p := range c.Pts {
@@ -743,9 +759,9 @@ func checkGeom(c GeomCase) (info, error) {
 	if err := expectGeneric(mk, name+".Simplify", g, got); err != nil {
 		return inf, err
 	}
-	// results are independent values: overwriting one member of the result must
-	// not change its siblings, and the same call on a fresh copy returns the same
-	// thing again afterwards
+	// results are independent values: after the caller overwrote the first result,
+	// the same call on a fresh copy must return the same thing again (whether the
+	// lines of one result share memory is only counted as a layout note)
 	{
 		snap := gen.DeepCopy(got)
 		var ls [][]orb.Point
@@ -759,7 +775,10 @@ func checkGeom(c GeomCase) (info, error) {
 			leaves(snap, func(pts []orb.Point, ring bool) { sl = append(sl, pts) })
 			for i := 1; i < len(ls) && i < len(sl); i++ {
 				if !sameSeq(ls[i], sl[i]) {
-					return inf, fmt.Errorf("%s.Simplify of %s: overwriting the first line of the result changed line %d of the same result (siblings share memory): was %v, now %v", name, gen.KindOf(g), i, short(sl[i]), short(ls[i]))
+					// layout fact only (soundness rule): the members of an in-place result
+					// mirror the input's layout; counted, never a failure
+					stats.Class("layout-note: lines of one generic result share memory")
+					break
 				}
 			}
 		}
@@ -866,10 +885,54 @@ type HistCase struct {
 	Steps []HistStep `json:"steps"`
 }
 
-// HistStep is one call: the generic entry point or the typed method of the kind.
+// HistStep is one call: the generic entry point or the typed method of the
+// kind. Before the call the caller may copy the simplifier struct by value
+// (Copy) and may assign its exported fields (Set: new threshold / minimum count
+// / distance function of the same simplifier type) - L3: the result must be
+// that of the CURRENT field values.
 type HistStep struct {
-	G   gen.G  `json:"g"`
-	Via string `json:"via"` // generic | typed
+	G    gen.G  `json:"g"`
+	Via  string `json:"via"` // generic | typed
+	Copy bool   `json:"copy,omitempty"`
+	Set  *Spec  `json:"set,omitempty"`
+}
+
+// mutate applies Copy and Set to the live simplifier value the way a caller
+// would and returns the value to use and the spec that now describes it.
+func (st HistStep) mutate(s orb.Simplifier, cur Spec) (orb.Simplifier, Spec) {
+	if st.Copy {
+		switch v := s.(type) {
+		case *simplify.DouglasPeuckerSimplifier:
+			c := *v
+			s = &c
+		case *simplify.RadialSimplifier:
+			c := *v
+			s = &c
+		case *simplify.VisvalingamSimplifier:
+			c := *v
+			s = &c
+		}
+	}
+	if st.Set != nil {
+		switch v := s.(type) {
+		case *simplify.DouglasPeuckerSimplifier:
+			v.Threshold = float64(st.Set.T)
+			cur = Spec{Algo: "dp", T: st.Set.T}
+		case *simplify.RadialSimplifier:
+			v.Threshold = float64(st.Set.T)
+			df := st.Set.DF
+			if df == "" {
+				df = "planar"
+			}
+			v.DistanceFunc = distFunc(df)
+			cur = Spec{Algo: "radial", T: st.Set.T, DF: df}
+		case *simplify.VisvalingamSimplifier:
+			v.Threshold = float64(st.Set.T)
+			v.ToKeep = st.Set.Keep
+			cur = Spec{Algo: "vis", T: st.Set.T, Keep: st.Set.Keep}
+		}
+	}
+	return s, cur
 }
 
 func runStep(s orb.Simplifier, st HistStep) orb.Geometry {
@@ -900,24 +963,142 @@ func runStep(s orb.Simplifier, st HistStep) orb.Geometry {
 func checkHist(c HistCase) (info, error) {
 	var inf info
 	s := c.S.make()
+	cur := c.S
 	for i, st := range c.Steps {
+		s, cur = st.mutate(s, cur)
 		got := runStep(s, st)
-		want := runStep(c.S.make(), st)
+		want := runStep(cur.make(), st)
 		if same, diff := gen.SameBits(got, want); !same {
-			return inf, fmt.Errorf("%s reused: call %d (%s, %s) returns something else than a fresh simplifier with the same parameters (%s): the result depends on what the simplifier handled before: in=%s reused=%s fresh=%s", c.S.String(), i, st.Via, gen.KindOf(st.G.V), diff, gen.Canon(st.G.V), gen.Canon(got), gen.Canon(want))
+			return inf, fmt.Errorf("%s reused (now %s): call %d (%s, %s) returns something else than a fresh simplifier with the current parameters (%s): the result depends on what the simplifier handled before: in=%s reused=%s fresh=%s", c.S.String(), cur.String(), i, st.Via, gen.KindOf(st.G.V), diff, gen.Canon(st.G.V), gen.Canon(got), gen.Canon(want))
 		}
 		if st.Via == "generic" {
-			if err := checkGenericMin(c.S, st.G.V, got); err != nil {
+			if err := checkGenericMin(cur, st.G.V, got); err != nil {
 				return inf, err
 			}
-			if err := expectGeneric(c.S.make, c.S.String()+".Simplify", st.G.V, got); err != nil {
+			if err := expectGeneric(cur.make, cur.String()+".Simplify", st.G.V, got); err != nil {
 				return inf, err
 			}
 		}
-		leaves(st.G.V, func(pts []orb.Point, ring bool) { inf.note(c.S.Algo, pts, apply(c.S.make(), pts, ring)) })
+		// the lines themselves against the model (not only against a fresh library object)
+		var leafErr error
+		leaves(st.G.V, func(pts []orb.Point, ring bool) {
+			if leafErr == nil {
+				_, leafErr = checkSpecLeaf(cur, pts, ring, &inf)
+			}
+		})
+		if leafErr != nil {
+			return inf, leafErr
+		}
+		if err := checkFields(cur, s); err != nil {
+			return inf, err
+		}
 	}
-	if err := checkFields(c.S, s); err != nil {
-		return inf, err
+	return inf, nil
+}
+
+// ---------------------------------------------------------------- aliasing inside one input (L5)
+
+// AliasCase: the members of one multi-geometry are windows of ONE backing
+// array (the same slice twice, equal start with different lengths, overlapping
+// windows, disjoint neighbours whose capacity reaches over the next member).
+type AliasCase struct {
+	Pts  []gen.P  `json:"pts"`
+	Wins [][2]int `json:"wins"` // start, length
+	Kind string   `json:"kind"` // lines | rings | polygons | collection
+	S    Spec     `json:"spec"`
+}
+
+func (c AliasCase) build(back []orb.Point) orb.Geometry {
+	win := func(i int) []orb.Point { w := c.Wins[i]; return back[w[0] : w[0]+w[1]] }
+	switch c.Kind {
+	case "rings":
+		p := orb.Polygon{}
+		for i := range c.Wins {
+			p = append(p, orb.Ring(win(i)))
+		}
+		return p
+	case "polygons":
+		m := orb.MultiPolygon{}
+		for i := range c.Wins {
+			m = append(m, orb.Polygon{orb.Ring(win(i))})
+		}
+		return m
+	case "collection":
+		col := orb.Collection{}
+		for i := range c.Wins {
+			if i%2 == 0 {
+				col = append(col, orb.LineString(win(i)))
+			} else {
+				col = append(col, orb.Ring(win(i)))
+			}
+		}
+		return col
+	}
+	m := orb.MultiLineString{}
+	for i := range c.Wins {
+		m = append(m, orb.LineString(win(i)))
+	}
+	return m
+}
+
+func (c AliasCase) disjoint() bool {
+	for i := range c.Wins {
+		for j := i + 1; j < len(c.Wins); j++ {
+			a, b := c.Wins[i], c.Wins[j]
+			if a[1] > 0 && b[1] > 0 && a[0] < b[0]+b[1] && b[0] < a[0]+a[1] {
+				return false
+			}
+		}
+	}
+	return true
+}
+
+// checkAlias asserts only what the property and the documentation state. The
+// simplifiers are documented to work in place, so members that overlap in
+// memory see each other's compaction: for those only "no panic, no invented
+// vertex, nothing longer than what was passed" is asserted. Members that are
+// disjoint windows (even when one's capacity reaches over the next) must give
+// exactly the values independent deep copies give.
+func checkAlias(c AliasCase) (info, error) {
+	var inf info
+	back := gen.OrbPts(c.Pts)
+	g := c.build(back)
+	indep := gen.DeepCopy(c.build(gen.OrbPts(c.Pts))) // what the caller passed, as independent values
+	got := c.S.make().Simplify(g)
+	name := c.S.String() + ".Simplify of aliased " + c.Kind
+	if c.disjoint() {
+		if err := checkGenericMin(c.S, indep, got); err != nil {
+			return inf, err
+		}
+		if err := expectGeneric(c.S.make, name, indep, got); err != nil {
+			return inf, err
+		}
+		leaves(indep, func(pts []orb.Point, ring bool) { inf.note(c.S.Algo, pts, apply(c.S.make(), pts, ring)) })
+		return inf, nil
+	}
+	set := map[[2]uint64]bool{}
+	total := 0
+	for _, p := range gen.OrbPts(c.Pts) {
+		set[[2]uint64{math.Float64bits(p[0]), math.Float64bits(p[1])}] = true
+	}
+	for _, w := range c.Wins {
+		total += w[1]
+	}
+	out := 0
+	var bad error
+	leaves(got, func(pts []orb.Point, ring bool) {
+		out += len(pts)
+		for _, p := range pts {
+			if bad == nil && !set[[2]uint64{math.Float64bits(p[0]), math.Float64bits(p[1])}] {
+				bad = fmt.Errorf("%s: output vertex %v is not a vertex of the input", name, p)
+			}
+		}
+	})
+	if bad != nil {
+		return inf, bad
+	}
+	if out > total {
+		return inf, fmt.Errorf("%s: %d output vertices from %d input vertices", name, out, total)
 	}
 	return inf, nil
 }
@@ -1154,7 +1335,7 @@ func genDF(t *rapid.T, fam string) string {
 	if fam == "lonlat" {
 		return rapid.SampledFrom([]string{"geo", "geo", "planar"}).Draw(t, "df")
 	}
-	return rapid.SampledFrom([]string{"planar", "planar-reentrant", "manhattan"}).Draw(t, "df")
+	return rapid.SampledFrom([]string{"planar", "planar-reentrant", "manhattan", "planar-method"}).Draw(t, "df")
 }
 
 func genKeep(t *rapid.T, n int) int {
@@ -1472,7 +1653,7 @@ func genSpec(t *rapid.T, pts []orb.Point) Spec {
 		v, _ := genDist(t, "t", pts, ownPlanar)
 		s.T = gen.F(v)
 	case "radial":
-		s.DF = rapid.SampledFrom([]string{"planar", "planar-reentrant", "manhattan"}).Draw(t, "df")
+		s.DF = rapid.SampledFrom([]string{"planar", "planar-reentrant", "manhattan", "planar-method"}).Draw(t, "df")
 		v, _ := genDist(t, "t", pts, oracleDF(s.DF))
 		s.T = gen.F(v)
 	case "vis", "visthr":
@@ -1577,7 +1758,13 @@ func TestPropHistory(t *testing.T) {
 				g = genGeom(rt, 1)
 			}
 			via := rapid.SampledFrom([]string{"generic", "generic", "typed"}).Draw(rt, "via")
-			c.Steps = append(c.Steps, HistStep{G: gen.G{V: g}, Via: via})
+			st := HistStep{G: gen.G{V: g}, Via: via}
+			st.Copy = rapid.IntRange(0, 5).Draw(rt, "copy") == 3
+			if rapid.IntRange(0, 3).Draw(rt, "set") == 2 {
+				ns := genHistSpec(rt, append(allPoints(g), pool...))
+				st.Set = &ns // only T / Keep / DF are used: the simplifier type stays
+			}
+			c.Steps = append(c.Steps, st)
 			pool = append(pool, allPoints(g)...)
 		}
 		c.S = genHistSpec(rt, pool)
@@ -1586,6 +1773,14 @@ func TestPropHistory(t *testing.T) {
 			stats.Class("history: Visvalingam with default minimum count")
 		}
 		stats.Class(fmt.Sprintf("history steps:%d", len(c.Steps)))
+		for _, st := range c.Steps {
+			if st.Set != nil {
+				stats.Class("history: caller assigns exported fields between calls")
+			}
+			if st.Copy {
+				stats.Class("history: simplifier struct copied by value between calls")
+			}
+		}
 		stats.Try(rt, "TestPropHistory", c, func() error {
 			inf, err := checkHist(c)
 			if err == nil && len(inf.nontrivial) > 0 {
@@ -1593,6 +1788,65 @@ func TestPropHistory(t *testing.T) {
 				stats.NonTrivial(gen.JSON(c))
 				if stats.WantSample("history:" + c.S.Algo) {
 					stats.Sample("history:"+c.S.Algo, c)
+				}
+			}
+			return err
+		})
+	})
+}
+
+// ---------------------------------------------------------------- TestPropAlias
+
+func TestPropAlias(t *testing.T) {
+	assumptions()
+	stats.Check(t, 30000, 600000, func(rt *rapid.T) {
+		pts, _, _ := genPts(rt, 30)
+		for len(pts) < 8 {
+			pts = append(pts, orb.Point{float64(len(pts)), float64((len(pts) * 7) % 5)})
+		}
+		n := len(pts)
+		c := AliasCase{Pts: gen.Pts(pts)}
+		c.Kind = rapid.SampledFrom([]string{"lines", "rings", "polygons", "collection"}).Draw(rt, "kind")
+		pat := rapid.SampledFrom([]string{"neighbours", "neighbours", "same", "prefix", "overlap"}).Draw(rt, "pattern")
+		k := rapid.IntRange(2, 4).Draw(rt, "members")
+		switch pat {
+		case "neighbours": // disjoint windows, each one's capacity reaches over the following ones
+			at := 0
+			for i := 0; i < k && at < n; i++ {
+				l := rapid.IntRange(0, (n-at+k-i-1)/(k-i)).Draw(rt, "len")
+				c.Wins = append(c.Wins, [2]int{at, l})
+				at += l
+			}
+		case "same":
+			a := rapid.IntRange(0, n-3).Draw(rt, "start")
+			l := rapid.IntRange(3, n-a).Draw(rt, "len")
+			for i := 0; i < k; i++ {
+				c.Wins = append(c.Wins, [2]int{a, l})
+			}
+		case "prefix": // equal start, different lengths
+			a := rapid.IntRange(0, n-3).Draw(rt, "start")
+			for i := 0; i < k; i++ {
+				c.Wins = append(c.Wins, [2]int{a, rapid.IntRange(1, n-a).Draw(rt, "len")})
+			}
+		default:
+			for i := 0; i < k; i++ {
+				a := rapid.IntRange(0, n-1).Draw(rt, "start")
+				c.Wins = append(c.Wins, [2]int{a, rapid.IntRange(0, n-a).Draw(rt, "len")})
+			}
+		}
+		c.S = genHistSpec(rt, pts)
+		stats.Class("alias pattern:" + pat)
+		if c.disjoint() {
+			stats.Class("alias: members disjoint (value semantics asserted)")
+		} else {
+			stats.Class("alias: members overlap (in place: weak clauses only)")
+		}
+		stats.Try(rt, "TestPropAlias", c, func() error {
+			inf, err := checkAlias(c)
+			if err == nil && len(inf.nontrivial) > 0 {
+				stats.NonTrivial(gen.JSON(c))
+				if stats.WantSample("alias:" + pat) {
+					stats.Sample("alias:"+pat, c)
 				}
 			}
 			return err
@@ -1829,6 +2083,17 @@ func TestReplay(t *testing.T) {
 	if !ok {
 		t.Skip("no replay file")
 	}
+	if name == "TestEnumLarge" || name == "TestPropLarge" {
+		var c LargeCase
+		if e := json.Unmarshal(raw, &c); e != nil {
+			t.Fatal(e)
+		}
+		stats.TryT(t, "replayed case still fails: "+name, c, func() error {
+			_, e := checkLarge(c)
+			return e
+		})
+		return
+	}
 	if name == "TestPropConcurrent" {
 		var cs []ConcItem
 		if e := json.Unmarshal(raw, &cs); e != nil {
@@ -1841,6 +2106,17 @@ func TestReplay(t *testing.T) {
 				}
 			}
 			return nil
+		})
+		return
+	}
+	if name == "TestPropAlias" {
+		var c AliasCase
+		if e := json.Unmarshal(raw, &c); e != nil {
+			t.Fatal(e)
+		}
+		stats.TryT(t, "replayed case still fails: "+name, c, func() error {
+			_, e := checkAlias(c)
+			return e
 		})
 		return
 	}
